@@ -38,7 +38,8 @@ def salts(draw):
         return None
     if k < 5:
         return draw(st.sampled_from(["s", "", "é", "É", "salt-日本", "\U0001f9ea", "a'b", 'a"b', "\\", "tab\there", "\x00", "\x7f", "%s", "{}", "a\rb", "\r", "\x0c", "\u2028", "\x85z", "s" * 300, "007", "1e3", "nan",
-                                     'say """hi"""', '"""', "'''", '""', "''", '""""""', "x\\", '\\"', "\\\\", "#", "# x", "\\N{DASH}", "\\x41", "\\u0041", "{{}}", "}{", "$", "`"]))
+                                     'say """hi"""', '"""', "'''", '""', "''", '""""""', "x\\", '\\"', "\\\\", "#", "# x", "\\N{DASH}", "\\x41", "\\u0041", "{{}}", "}{", "$", "`",
+                                     "prix_d\u2019\u00e9t\u00e9", "\u2018q\u2019", "\u201cq\u201d", "a\u2013b", "\u22121", "x\u200by"]))
     if k < 6:
         # runs of quotes / backslashes / braces / percent signs (doc strings, raw strings, templates)
         return draw(st.text(alphabet=draw(st.sampled_from(['"\\', "'\\", '"{}%', "'# \\"])), min_size=1, max_size=8))
@@ -71,7 +72,15 @@ def cases(draw):
             # an unrelated field is never printed, so even an int that CPython refuses to convert to text is fine there
             env[extra] = draw(st.one_of(_values, st.sampled_from([10 ** 5000, -(10 ** 6000), float("nan"), (1, 2), [1, 2]])))
         inputs.append(M.enc_inputs(env))
-    return {"prog": prog, "inputs": inputs}
+    case = {"prog": prog, "inputs": inputs}
+    if draw(st.integers(0, 3)) == 0:
+        # a host application that has lifted CPython's int <-> text limit (sys.set_int_max_str_digits(0)) before using the
+        # library: ints of any size print, so they are legal splitter values and must get the bucket of their text
+        case["ambient"] = "int-limit-lifted"
+        env = dict(M.dec_inputs(inputs[0]))
+        env[names[0]] = draw(st.sampled_from([10 ** 5000, -(10 ** 4400), 7 ** 6000, 10 ** 4300]))
+        inputs.append(M.enc_inputs(env))
+    return case
 
 
 def _short(v):
@@ -89,8 +98,22 @@ def _interesting(v):
 
 
 def judge(case):
+    from .. import common
+
+    if case.get("ambient") == "int-limit-lifted":
+        with common.ambient(int_digits=0):
+            v = _judge(case)
+        v["tags"] = sorted(set(v["tags"]) | {"ambient:int-limit-lifted"})
+        return v
+    return _judge(case)
+
+
+def _judge(case):
+    from .. import common
+
     prog = case["prog"]
     text = M.render(prog)
+    state0 = common.global_state()
     res = sut.compile_text(text)
     salt = prog["salt"]["v"] if prog["salt"] else None
     tags = ["salt:none" if salt is None else ("salt:non-ascii" if not salt.isascii() else "salt:ascii")]
@@ -129,7 +152,11 @@ def judge(case):
         act2 = sut.call(ev, env2)
         if act2 != act:
             viol.append("f(v) != f(str(v)): %r vs %r | inputs=%r" % (act, act2, short))
-    return {"viol": viol, "nontrivial": nt, "tags": sorted(set(tags)), "key": [text, case["inputs"]],
+    changed = common.state_diff(state0, common.global_state())
+    if changed:
+        viol.append("compiling / evaluating changed interpreter-wide state: %s | %r" % ("; ".join(changed), text[:120]))
+        common.restore_state(state0)
+    return {"viol": viol, "nontrivial": nt, "tags": sorted(set(tags)), "key": [text, case["inputs"], case.get("ambient")],
             "sample": {"text": text[:200], "inputs": [{k: repr(_short(v))[:60] for k, v in M.dec_inputs(e).items()} for e in case["inputs"][:2]]}}
 
 
